@@ -382,13 +382,16 @@ pub enum C33Case {
     /// an NTPv5 association end to end: the honest scripted server hands out its Bloom filter chunk by chunk
     /// (with lost answers); `filter_kind` 1 = filter without, 2 = filter with this daemon's server id
     WireV5 { local_stratum: u8, stratum: u8, filter_kind: u8, key_seed: u64, deliver: Vec<bool> },
+    /// NtpManager::update_used_sources (the daemon's call): rounds of used-source lists over the external
+    /// source types (0 PPS, 1 SOCK, 2 CSPTP) and 3 = an NTP source id that has not reported a snapshot
+    Manager { local_stratum: u8, rounds: Vec<Vec<u8>> },
 }
 
 pub struct C33;
 impl Property for C33 {
     type Case = C33Case;
     const ID: &'static str = "C33";
-    const RULE: &'static str = "(a) source snapshots with stratum 0..=17, reachable or not, source address from a pool that overlaps the local address list (v4/v6), reference id arbitrary or equal to the id of a local address, NTPv5 Bloom filter absent / without / with this daemon's server id, local stratum 1..16: acceptance implies every condition of the statement; (b) lists of used NTP/external sources: advertised stratum = primary + 1 (or the local stratum without sources), reference id = primary's id, the filter contains our id; (c) a plain association end to end: answers with stratum/reference id (incl. the id of a local address): the controller is told 'usable' only if the conditions hold for the state after that answer; (d) an NTPv5 association end to end with an honest scripted server whose 512-byte Bloom filter does or does not contain this daemon's id, 20..80 polls of which about one in ten stays unanswered: whenever the source is reported usable, a filter it regards as complete must be the server's and must not contain this daemon's id; non-trivial = a case where at least one rejection reason applies";
+    const RULE: &'static str = "(a) source snapshots with stratum 0..=17, reachable or not, source address from a pool that overlaps the local address list (v4/v6), reference id arbitrary or equal to the id of a local address, NTPv5 Bloom filter absent / without / with this daemon's server id, local stratum 1..16: acceptance implies every condition of the statement; (b) lists of used NTP/external sources: advertised stratum = primary + 1 (or the local stratum without sources), reference id = primary's id, the filter contains our id; (c) a plain association end to end: answers with stratum/reference id (incl. the id of a local address): the controller is told 'usable' only if the conditions hold for the state after that answer; (d) an NTPv5 association end to end with an honest scripted server whose 512-byte Bloom filter does or does not contain this daemon's id, 20..80 polls of which about one in ten stays unanswered: whenever the source is reported usable, a filter it regards as complete must be the server's and must not contain this daemon's id; (e) rounds of NtpManager::update_used_sources over external source types (PPS/SOCK/CSPTP: stratum 0, fixed identifiers) and not-yet-reported NTP ids: advertised stratum/reference id as in (b), unchanged while a used NTP source has not reported; non-trivial = a case where at least one rejection reason applies";
     const ASSUMPTIONS: &'static [&'static str] = &["reference ids of addresses are computed with the crate's own ReferenceId::from_ip (RFC 5905 rule)"];
     const QUICK_CASES: u32 = 1_000_000;
     const THOROUGH_CASES: u32 = 20_000_000;
@@ -408,6 +411,8 @@ impl Property for C33 {
                 .prop_map(|(local_stratum, local_ips, source_addr, answers)| C33Case::Wire { local_stratum, local_ips, source_addr, answers }),
             1 => (prop_oneof![3 => Just(16u8), 1 => 2u8..17], 1u8..16, prop_oneof![3 => Just(2u8), 2 => Just(1u8)], any::<u64>(), prop::collection::vec(prop_oneof![9 => Just(true), 1 => Just(false)], 20..80))
                 .prop_map(|(local_stratum, stratum, filter_kind, key_seed, deliver)| C33Case::WireV5 { local_stratum, stratum, filter_kind, key_seed, deliver }),
+            1 => (1u8..17, prop::collection::vec(prop::collection::vec(prop_oneof![3 => 0u8..3, 1 => Just(3u8)], 0..4), 1..5))
+                .prop_map(|(local_stratum, rounds)| C33Case::Manager { local_stratum, rounds }),
         ]
         .boxed()
     }
@@ -552,6 +557,58 @@ impl Property for C33 {
                     }
                 }
                 Outcome::pass(any_reason).label("wire")
+            }
+            C33Case::Manager { local_stratum, rounds } => {
+                let mut sync = SynchronizationConfig::default();
+                sync.local_stratum = *local_stratum;
+                let manager = ntp_proto::NtpManager::new(sync, Vec::<std::net::IpAddr>::new().into());
+                let mut previous = manager.observe();
+                let mut decided = false;
+                for (ri, kinds) in rounds.iter().enumerate() {
+                    let list: Vec<(ClockId, ntp_proto::SourceType)> = kinds
+                        .iter()
+                        .map(|k| {
+                            (
+                                ClockId::new(),
+                                match k {
+                                    0 => ntp_proto::SourceType::Pps,
+                                    1 => ntp_proto::SourceType::Sock,
+                                    2 => ntp_proto::SourceType::Csptp,
+                                    _ => ntp_proto::SourceType::Ntp,
+                                },
+                            )
+                        })
+                        .collect();
+                    let snap = manager.update_used_sources(list.into_iter());
+                    let advertised = manager.observe();
+                    if (snap.stratum, nh::refid_to_u32(snap.reference_id)) != (advertised.stratum, nh::refid_to_u32(advertised.reference_id)) {
+                        bail!("manager-returns-other-snapshot-than-it-advertises", "round {ri}");
+                    }
+                    if kinds.contains(&3) {
+                        // a used NTP source that has not reported yet: the advertisement stays as it was
+                        if (snap.stratum, nh::refid_to_u32(snap.reference_id)) != (previous.stratum, nh::refid_to_u32(previous.reference_id)) {
+                            bail!("advertisement-changed-before-sources-reported", "round {ri}: {kinds:?}");
+                        }
+                    } else {
+                        decided = true;
+                        let (want_stratum, want_id) = match kinds.first() {
+                            None => (*local_stratum, None),
+                            Some(0) => (1, Some(u32::from_be_bytes(*b"PPS\0"))),
+                            Some(1) => (1, Some(u32::from_be_bytes(*b"SOCK"))),
+                            Some(_) => (1, Some(u32::from_be_bytes(*b"CPTP"))),
+                        };
+                        if snap.stratum != want_stratum {
+                            bail!("advertised-stratum-not-primary-plus-one", "round {ri}: {kinds:?} gives {} instead of {want_stratum}", snap.stratum);
+                        }
+                        if let Some(id) = want_id {
+                            if nh::refid_to_u32(snap.reference_id) != id {
+                                bail!("advertised-reference-id-not-primary", "round {ri}: {:#x} vs {id:#x}", nh::refid_to_u32(snap.reference_id));
+                            }
+                        }
+                    }
+                    previous = snap;
+                }
+                Outcome::pass(decided && rounds.len() >= 2).label("manager")
             }
             C33Case::WireV5 { local_stratum, stratum, filter_kind, key_seed, deliver } => {
                 let case = crate::w_source::SourceCase {
